@@ -257,11 +257,34 @@ pub fn run(thorough: bool, seed: u64, driver: &str, rep: &mut Report) {
                 let n = st.tree.size();
                 // rescale by factors the integer model cannot carry (real code only): "every length multiplied by the factor", for the
                 // floats next to 1.0, tiny and huge factors, a negative one — both records of every branch, bit for bit
-                {
-                    let before = slots_of(&st.tree);
-                    for f in [1.0 + f64::EPSILON, 1.0 - f64::EPSILON / 2.0, 1.0 + 2.0 * f64::EPSILON, 0.1, -2.5, 1e-300, 3e200] {
-                        let mut t2 = st.tree.clone();
+                // ... and on a copy in which a few branches carry lengths at the ends of the float range (largest finite, infinite,
+                // subnormal — written through the public setters, both records): a product that overflows IS infinite, an infinite
+                // length stays infinite, zero times infinity is NaN — the IEEE product, nothing else
+                let mut extreme = st.tree.clone();
+                let mut n_ext = 0;
+                for i in 0..n {
+                    let Ok(node) = extreme.get(&i) else { continue };
+                    let (Some(p), Some(_)) = (node.parent, node.parent_edge) else { continue };
+                    if !rng.chance(1, 3) {
+                        continue;
+                    }
+                    let v = *rng.pick(&[f64::MAX, f64::INFINITY, f64::NEG_INFINITY, 1e308, 5e-324, -f64::MAX, 2.2250738585072014e-308]);
+                    extreme.get_mut(&i).unwrap().set_parent(p, Some(v));
+                    extreme.get_mut(&p).unwrap().set_child_edge(&i, Some(v));
+                    n_ext += 1;
+                }
+                for (variant, base) in [("", &st.tree), ("\n(a few lengths first set to the ends of the float range through the public setters)", &extreme)] {
+                    if !variant.is_empty() && n_ext == 0 {
+                        continue;
+                    }
+                    let before = slots_of(base);
+                    let factors: Vec<f64> = if variant.is_empty() { vec![1.0 + f64::EPSILON, 1.0 - f64::EPSILON / 2.0, 1.0 + 2.0 * f64::EPSILON, 0.1, -2.5, 1e-300, 3e200] } else { vec![1.0, 2.0, 1e10, -3.0, 0.0, 0.5, 1e-10] };
+                    for f in factors {
+                        let mut t2 = base.clone();
                         t2.rescale(f);
+                        if !variant.is_empty() {
+                            rep.count("rescale_of_extreme_lengths");
+                        }
                         let after = slots_of(&t2);
                         rep.count("rescale_by_non_integer_factors");
                         let same = |a: f64, b: f64| (a.is_nan() && b.is_nan()) || a.to_bits() == b.to_bits();
@@ -279,13 +302,28 @@ pub fn run(thorough: bool, seed: u64, driver: &str, rep: &mut Report) {
                             }
                         }
                         if let Some(b) = bad {
-                            rep.oracle("effect-rescale", "not-every-length-multiplied:non-integer-factor", &format!("{start}\nreal.rescale\t{f:e}"), &b);
+                            rep.oracle("effect-rescale", if variant.is_empty() { "not-every-length-multiplied:non-integer-factor" } else { "not-every-length-multiplied:extreme-lengths" }, &format!("{start}{variant}\nreal.rescale\t{f:e}"), &b);
                         }
                     }
                 }
                 let mut ops: Vec<String> = vec!["ar.compress".into(), "ar.ladderize".into(), format!("real.resolve\t{}", rng.next() % 1000)];
                 for k in [0i64, 2, 3, -1] {
                     ops.push(format!("ar.rescale\t{k}"));
+                }
+                if !exhaustive {
+                    // on larger trees (incl. polytomies of dozens of children): a few prunes and regroupings at random places
+                    for _ in 0..3 {
+                        ops.push(format!("ar.prune\t{}", rng.below(n + 1)));
+                    }
+                    let slots = slots_of(&st.tree);
+                    for _ in 0..2 {
+                        let parents: Vec<usize> = (0..slots.len()).filter(|&i| !slots[i].deleted && slots[i].children.len() >= 2).collect();
+                        if parents.is_empty() {
+                            break;
+                        }
+                        let ch = &slots[*rng.pick(&parents)].children;
+                        ops.push(format!("ar.merge\t{}\t{}\t512\t-\t2048\th58", rng.pick(ch), rng.pick(ch)));
+                    }
                 }
                 if exhaustive {
                     for x in 0..=n {
